@@ -1,3 +1,87 @@
-From Coq Require Import ZArith List Bool.
-From Bingo Require Import Model.Cas.
-Example C03_stub : True. Proof. exact I. Qed.
+(* Property C03: simplification and reduction preserve the functions an equation can express.
+   FULL: reduction (clause 1); the two translations between stacks and expression trees (CSE dictionary, balanced splitting of
+   n-ary sums/products, constant renumbering) preserve the meaning; the optional modifications preserve the meaning.
+   PARTIAL (named so): automatic_simplify and the whole pipeline are sound RELATIVE to the list of identities [cas_laws] - every
+   rewrite is an instance of one of them - and relative to the contract of fold_constants (not modelled). The identities hold over
+   the reals only on their domains (positive power bases, non-zero denominators); taken unconditionally they force 0 = 1
+   (cas_laws_degenerate below), so these two theorems are a certificate of WHICH identities are used, not a pointwise statement.
+   What is missing for the full statement: the domain bookkeeping (refinement where the original is finite), the contract of
+   fold_constants, termination (the model takes fuel). These are covered by the differential oracle only. *)
+From Coq Require Import ZArith List Bool Lia.
+From Bingo Require Import Lib.Alg Gen.OpDefs Gen.OpEval Model.Stack Model.Cas Model.Parse Model.AGraphObj Model.TermAlg
+     Proofs.ReduceProofs Proofs.BuildProofs Proofs.CasProofs Proofs.CasInterpProofs Proofs.CasPipeline.
+Import ListNotations.
+
+(* ---- clause 1: reduction ---- *)
+Theorem C03_reduce_keeps_the_expression_and_has_one_row_per_utilized_command :
+  forall D s, wf D s = true -> denote (reduce_stack s) = denote s /\ length (reduce_stack s) = count_true (utilized s).
+Proof. exact reduce_stack_sound. Qed.
+Print Assumptions C03_reduce_keeps_the_expression_and_has_one_row_per_utilized_command.
+
+Theorem C03_reduce_evaluates_identically :
+  forall (V : Type) (A : alg V) D s xv cv, wf D s = true -> root A (reduce_stack s) xv cv = root A s xv cv.
+Proof. exact @reduce_evaluates_identically. Qed.
+Print Assumptions C03_reduce_evaluates_identically.
+
+(* ---- the interpreter: stack -> tree ---- *)
+Theorem C03_build_cas_expression_means_the_stack :
+  forall (V : Type) (A : alg V) (xv : Z -> V),
+  (forall a, a_add A a (a_of_int A 0) = a) -> (forall a, a_mul A a (a_of_int A 1) = a) ->
+  forall cv s e, scoped s -> s <> [] -> build_cas s = Some e ->
+  ev A xv (cv_row cv s) e = sem A xv cv (denote s).
+Proof. exact @build_cas_sound. Qed.
+Print Assumptions C03_build_cas_expression_means_the_stack.
+
+(* ---- the interpreter: tree -> stack (output well formed, root last, constants numbered in stack order) ---- *)
+Theorem C03_build_agraph_stack_means_the_expression :
+  forall (V : Type) (A : alg V) (xv : Z -> V),
+  (forall a b c, a_add A a (a_add A b c) = a_add A (a_add A a b) c) -> (forall a, a_add A a (a_of_int A 0) = a) ->
+  (forall a, a_add A (a_of_int A 0) a = a) ->
+  (forall a b c, a_mul A a (a_mul A b c) = a_mul A (a_mul A a b) c) -> (forall a, a_mul A a (a_of_int A 1) = a) ->
+  (forall a, a_mul A (a_of_int A 1) a = a) ->
+  forall cv e out, arity_ok e = true -> build_agraph_stack e = Some out ->
+  out <> [] /\ scoped out /\ length (result_ids e) = n_const out /\
+  forall cv', (forall j, (j < length (result_ids e))%nat -> cv' (Z.of_nat j) = cv (nth j (result_ids e) 0%Z)) ->
+    sem A xv cv' (denote (renumber out 0)) = ev A xv cv e.
+Proof. exact @build_agraph_stack_sound. Qed.
+Print Assumptions C03_build_agraph_stack_means_the_expression.
+
+(* ---- automatic_simplify: every rewrite is an instance of the listed identities (PARTIAL, see the header) ---- *)
+Theorem C03_automatic_simplify_sound_partial :
+  forall (V : Type) (A : alg V), cas_laws A -> forall xv cv depth rf e r,
+  automatic_simplify true depth rf e = Some r -> ev A xv cv r = ev A xv cv e.
+Proof. intros V A L xv cv depth rf e r. apply auto_sound. exact L. Qed.
+Print Assumptions C03_automatic_simplify_sound_partial.
+
+Theorem C03_optional_modifications_sound_partial :
+  forall (V : Type) (A : alg V), cas_laws A -> forall xv cv depth e r,
+  optional_modifications depth e = Some r -> ev A xv cv r = ev A xv cv e.
+Proof. intros V A L xv cv depth e r. apply optional_sound. exact L. Qed.
+Print Assumptions C03_optional_modifications_sound_partial.
+
+(* ---- the pipeline: for every setting of the original constants some setting of the simplified constants agrees at every
+        point - relative to the identities and to the contract of fold_constants (PARTIAL) ---- *)
+Theorem C03_simplify_preserves_the_expressible_functions_partial :
+  forall (V : Type) (A : alg V), cas_laws A ->
+  forall fold s e0 e1 e3 out fuel,
+  fold_contract A fold -> scoped s -> s <> [] ->
+  build_cas s = Some e0 -> automatic_simplify true fuel fuel e0 = Some e1 ->
+  optional_modifications fuel (fold e1) = Some e3 -> arity_ok e3 = true -> build_agraph_stack e3 = Some out ->
+  out <> [] /\ scoped out /\
+  forall cv, exists cv', forall xv, sem A xv cv' (denote (renumber out 0)) = sem A xv cv (denote s).
+Proof. intros V A L. apply simplify_pipeline. exact L. Qed.
+Print Assumptions C03_simplify_preserves_the_expressible_functions_partial.
+
+Theorem C03_the_identities_are_only_jointly_valid_in_the_degenerate_algebra :
+  forall (V : Type) (A : alg V), cas_laws A -> a_of_int A 0 = a_of_int A 1.
+Proof. exact @cas_laws_degenerate. Qed.
+Print Assumptions C03_the_identities_are_only_jointly_valid_in_the_degenerate_algebra.
+
+(* non-vacuity: the interpreter theorems' hypotheses hold over the integers; a concrete stack through the whole model pipeline
+   (fold = identity): (X_0 + 2) + (X_0 - 2)*1 + sin(0)  ->  X_0 + X_0 collected to 2*X_0 *)
+Definition ex_s : stack := [(0, 0, 0); (-1, 2, 2); (2, 0, 1); (3, 0, 1); (-1, 1, 1); (4, 3, 4); (2, 2, 5); (-1, 0, 0); (6, 7, 7); (2, 6, 8)]%Z.
+Example C03_example :
+  simplify_stack true 200 (fun e => e) ex_s = Some [(-1, 2, 2); (0, 0, 0); (4, 0, 1)]%Z /\
+  (forall x, root z_alg [(-1, 2, 2); (0, 0, 0); (4, 0, 1)]%Z (fun _ => x) (fun _ => 0%Z) = (2 * x)%Z) /\
+  (forall a : Z, (a + 0 = a)%Z) /\ (forall a : Z, (a * 1 = a)%Z).
+Proof. split; [vm_compute; reflexivity|]. split; [intros x; cbv -[Z.mul Z.add]; lia|]. split; intros a; lia. Qed.
